@@ -453,7 +453,11 @@ def run(tier, seed):
                 else:
                     inconclusive.append("get_new_path %s base %r %s->%s, %d segments: %s %s" % (locales, sp, old, new, nsegs, r["status"], r.get("reason", "")))
         solver_s += gnp["secs"]
-        # native validation of the summaries: concrete requests through the real function, every run
+    except Unsupported as e:
+        inconclusive.append("get_new_path: UNSUPPORTED %s" % e)
+    try:
+        # native validation of the summaries: concrete requests through the real function, every run (also when the
+        # kernel met MIR outside its vocabulary: the concrete stage still speaks)
         conc = []
         for locales, bn, sp, old, new in c14c.cases(tier):
             default = locales[0]
